@@ -52,3 +52,22 @@ Example ex_luks_neg_wf : wf_luks 4294967295 ex_luks_neg = true.
 Proof. vm_compute. reflexivity. Qed.
 Example ex_luks_neg_size : vsize_end F_luks [ex_luks_neg] = Ok (592 - 4294967295 * 512)%Z.
 Proof. vm_compute. reflexivity. Qed.
+
+(* VMDK: streamOptimized image announcing a footer (gdOffset = 2^64-1), capacity 2^64-1 sectors, one descriptor sector *)
+Definition ex_vmdk_desc : bytes := lit "# Disk DescriptorFile" ++ [10] ++ lit "CREATETYPE=""streamOptimized""" ++ [10].
+Definition ex_vmdk : bytes :=
+  patch 512 ex_vmdk_desc (patch 56 (le_enc 8 ex_size) (patch 36 (le_enc 8 1) (patch 28 (le_enc 8 1)
+    (patch 12 (le_enc 8 ex_size) (patch 4 (le_enc 4 3) (patch 0 SPEC_VMDK_MAGIC (zeros 3000))))))).
+Example ex_vmdk_wf : wf_vmdk ex_size 3 1 ex_vmdk = true.
+Proof. vm_compute. reflexivity. Qed.
+Example ex_vmdk_size : vsize_end F_vmdk (cut2 70 ex_vmdk) = Ok (Z.of_N (ex_size * 512)).
+Proof. vm_compute. reflexivity. Qed.
+Example ex_vmdk_prefix : is_prefix (btake 1023 ex_vmdk) ex_vmdk = true /\ vsize_now F_vmdk (cut2 5 (btake 1023 ex_vmdk)) = Ok 0%Z.
+Proof. vm_compute. split; reflexivity. Qed.
+(* outside the hypotheses (no sparse header; zone F1): a text-only descriptor naming a sparse type, first chunk of
+   4..43 bytes: virtual_size raises struct.error; with 44..63 bytes it reports bytes of the text as a size *)
+Definition ex_vmdk_text : bytes := lit "createType=""monolithicSparse""" ++ [10] ++ lit "RW 1 SPARSE ""a""" ++ [10] ++ zeros 40.
+Example ex_vmdk_text_raises : vsize_now F_vmdk [btake 30 ex_vmdk_text] = Exn StructError.
+Proof. vm_compute. reflexivity. Qed.
+Example ex_vmdk_text_garbage : vsize_now F_vmdk [btake 46 ex_vmdk_text] = Ok 3853699477345195186688%Z.
+Proof. vm_compute. reflexivity. Qed.
